@@ -181,9 +181,9 @@ class NormDomain(Domain):
                 return False
             d = ra - rb
             nz = getattr(self, 'nonzero', None)
-            if nz and d.den.is_const() and len(d.num.t) == 1:
+            if nz and len(d.num.t) == 1:
                 (m, c), = d.num.t.items()
-                if len(m) == 1 and m[0][0] in nz and isinstance(op, (ast.Eq, ast.NotEq)):
+                if m and all(a in nz for a, _ in m) and isinstance(op, (ast.Eq, ast.NotEq)):
                     return isinstance(op, ast.NotEq)
             if d.num.is_const() and d.den.is_const():
                 c = d.num.const_value() / d.den.const_value()
@@ -194,8 +194,12 @@ class NormDomain(Domain):
 
     def isinstance(self, v, names):
         if isinstance(v, Sym):
-            return any(n in ('float', 'int', 'Number', 'Real') for n in names if isinstance(n, str)) and \
-                not any(n in ('Iterable', 'tuple', 'list') for n in names if isinstance(n, str)) or None
+            strs = [n for n in names if isinstance(n, str)]
+            if any(n in ('float', 'int', 'Number', 'Real', 'complex') for n in strs):
+                return True
+            if strs and all(n in ('Iterable', 'tuple', 'list', 'Sequence', 'str', 'dict') for n in strs) and getattr(self, 'scalar_mode', True):
+                return False
+            return None
         return None
 
     def call_ext(self, dotted, args, kwargs, node):
@@ -232,6 +236,14 @@ class NormDomain(Domain):
         if dotted == 'builtins.abs' or dotted in ('numpy.abs', 'numpy.absolute'):
             if a0 is not None and isinstance(args[0], Sym):
                 return self.func_atom('abs', [args[0]])
+        if dotted in ('builtins.max', 'builtins.min'):
+            vals = args
+            if len(args) == 1 and isinstance(args[0], Tup):
+                vals = args[0].items
+            if len(vals) >= 2 and any(isinstance(v, Sym) for v in vals) and all(self.rat(v) is not None for v in vals):
+                if all(v == vals[0] for v in vals[1:]):
+                    return vals[0]
+                return self.func_atom(dotted.split('.')[1], sorted(vals, key=lambda v: self.rat(v).key()))
         if dotted == 'numpy.outer' and len(args) == 2:
             ra, rb = self.rat(args[0]), self.rat(args[1])
             if ra is not None and rb is not None:
